@@ -469,3 +469,6 @@ func (w *World) MarkSpent(chain, txid string, vout uint32, spender, owner string
 	c.Order = append(c.Order, spender)
 	return nil
 }
+
+// NewTokenWatcher exposes the contract-honouring watcher for tests that plug in real wallets.
+func NewTokenWatcher(p *Proc, chain string) *TokenWatcher { return &TokenWatcher{p: p, chain: chain} }
